@@ -39,18 +39,19 @@ class Mean(Aggregation):
         if len(new):
             totals = totals + new.sum()
             counts = counts + new.count()
+        return (totals, counts), self._compute_result(totals, counts)
+
+    def _compute_result(self, totals, counts):
         if isinstance(counts, Number) and counts == 0:
-            counts = 1
-        return (totals, counts), totals / counts
+            return np.nan
+        return totals / counts
 
     def on_old(self, acc, old):
         totals, counts = acc
         if len(old):
             totals = totals - old.sum()
             counts = counts - old.count()
-        if isinstance(counts, Number) and counts == 0:
-            counts = 1
-        return (totals, counts), totals / counts
+        return (totals, counts), self._compute_result(totals, counts)
 
     def initial(self, new):
         s, c = new.sum(), new.count()
